@@ -59,6 +59,8 @@ type oblEngine struct {
 	funcs map[*ssa.Function]bool
 	seenC map[string]int
 	used  map[string]bool // justification lines used
+
+	seenLookup map[*ssa.Lookup]bool
 }
 
 func (e *oblEngine) constructOf(f *ssa.Function, pos token.Pos, want func(ast.Node) bool, fallback string) string {
@@ -539,7 +541,8 @@ func nullableIEField(v ssa.Value) (string, bool) {
 
 // nullable repo fields (N3): field name → reason it can be nil on the receive path
 var nullableRepoFields = map[string]string{
-	"upf.ippool": "assigned in NewUPF only under enableUeIPAlloc",
+	"upf.ippool":     "assigned in NewUPF only under enableUeIPAlloc",
+	"endpoint.IPNet": "set by parseNet only when the flow description has the from/to part",
 }
 
 func nullableRepoField(v ssa.Value) (string, bool) {
@@ -578,10 +581,39 @@ func (w *World) nonNilGuard(f *ssa.Function, site ssa.Instruction, path string, 
 
 func (e *oblEngine) nilObls(f *ssa.Function) {
 	w := e.w
-	checkRecv := func(i ssa.Instruction, recv ssa.Value, what string) {
+	var checkRecv func(i ssa.Instruction, recv ssa.Value, what string)
+	checkRecv = func(i ssa.Instruction, recv ssa.Value, what string) {
 		recv0 := recv
 		if ct, ok := recv.(*ssa.ChangeType); ok {
 			recv0 = ct.X
+		}
+		if phi, ok := recv0.(*ssa.Phi); ok {
+			// a merge of candidates: each one that is a plain (no presence bit) pointer map element is an obligation
+			for _, ev := range phi.Edges {
+				if lk, ok := ev.(*ssa.Lookup); ok && !lk.CommaOk {
+					if _, isPtr := lk.Type().Underlying().(*types.Pointer); isPtr {
+						if e.seenLookup == nil {
+							e.seenLookup = map[*ssa.Lookup]bool{}
+						}
+						if e.seenLookup[lk] {
+							continue
+						}
+						e.seenLookup[lk] = true
+						c := e.constructOf(f, lk.Pos(), func(n ast.Node) bool { _, ok := n.(*ast.IndexExpr); return ok }, valueText(lk))
+						g := w.nonNilGuard(f, i, "", func(x ssa.Value) bool { return x == ssa.Value(phi) || x == ssa.Value(lk) })
+						how := "dominated by a nil check"
+						if !g {
+							if k, isK := constInt(lk.Index); isK {
+								if okK, why := w.mapKeyAlwaysPresent(lk.X, k); okK {
+									g, how = true, why
+								}
+							}
+						}
+						e.record("NIL", f, lk, c, g, false, ifelse(g, how, "element of "+valueText(lk.X)+" read without the presence bit is nil for an absent key; it flows into a value that is dereferenced ("+what+")"))
+					}
+				}
+			}
+			return
 		}
 		// N1
 		if path, ok := nullableIEField(recv0); ok {
@@ -598,10 +630,44 @@ func (e *oblEngine) nilObls(f *ssa.Function) {
 		}
 		// N3
 		if path, ok := nullableRepoField(recv0); ok {
-			c := e.constructOf(f, i.Pos(), func(n ast.Node) bool { _, ok := n.(*ast.CallExpr); return ok }, what)
+			c := e.constructOf(f, i.Pos(), func(n ast.Node) bool {
+				switch n.(type) {
+				case *ast.CallExpr, *ast.SelectorExpr:
+					return true
+				}
+				return false
+			}, what)
 			g := w.nonNilGuard(f, i, path, nil)
-			e.record("NIL", f, i, c, g, false, ifelse(g, "dominated by "+path+" != nil", path+" can be nil ("+nullableRepoFields[keyOfRepoField(recv0)]+") and is used without a nil check"))
+			how := "dominated by " + path + " != nil"
+			if !g && keyOfRepoField(recv0) == "endpoint.IPNet" {
+				// post-condition of the tokenizer: a rule returned without error has both networks
+				if okP, why := w.flowDescPostcondition(); okP && strings.Contains(path, "parseFlowDesc#0(") {
+					if call := producerCall(recv0); call != nil {
+						if ev := errResult(call); ev != nil && errGuarded(f, call, ev, func(j ssa.Instruction) bool { return j == i }) {
+							g, how = true, "parseFlowDesc returned err == nil, and "+why
+						}
+					}
+				}
+			}
+			e.record("NIL", f, i, c, g, false, ifelse(g, how, path+" can be nil ("+nullableRepoFields[keyOfRepoField(recv0)]+") and is used without a nil check"))
 			return
+		}
+		// N6: pointer-typed element of a map read without the presence bit
+		if lk, ok := recv0.(*ssa.Lookup); ok && !lk.CommaOk {
+			if _, isMap := lk.X.Type().Underlying().(*types.Map); isMap {
+				if _, isPtr := lk.Type().Underlying().(*types.Pointer); isPtr {
+					c := e.constructOf(f, i.Pos(), func(n ast.Node) bool {
+						switch n.(type) {
+						case *ast.CallExpr, *ast.SelectorExpr:
+							return true
+						}
+						return false
+					}, what)
+					g := w.nonNilGuard(f, i, "", func(x ssa.Value) bool { return x == ssa.Value(lk) })
+					e.record("NIL", f, i, c, g, false, ifelse(g, "dominated by a nil check of the element", "element of "+valueText(lk.X)+" read without the presence bit is nil for an absent key and is dereferenced"))
+					return
+				}
+			}
 		}
 		// N2: result of a call that also returns an error
 		if ex, ok := recv0.(*ssa.Extract); ok {
@@ -650,6 +716,19 @@ func (e *oblEngine) nilObls(f *ssa.Function) {
 		case ssa.CallInstruction:
 			cc := x.Common()
 			if cc.IsInvoke() {
+				// N5: a method call on an error value that a call returned: nil on the success path
+				if isErrorType(cc.Value.Type()) {
+					if ex, ok := cc.Value.(*ssa.Extract); ok {
+						if _, isCall := ex.Tuple.(*ssa.Call); isCall {
+							c := e.constructOf(f, i.Pos(), func(n ast.Node) bool { _, ok := n.(*ast.CallExpr); return ok }, valueText(cc.Value)+"."+cc.Method.Name()+"()")
+							g := onlyVia(f, i, func(a, b *ssa.BasicBlock) bool {
+								return nilnessEdge(a, b, func(v ssa.Value) bool { return v == cc.Value }, false)
+							})
+							e.record("NIL", f, i, c, g, false, ifelse(g, "only where the error is non-nil", "the error value is nil when the call succeeded; ."+cc.Method.Name()+"() is reached on a path that did not establish err != nil (e.g. `err != nil || other`): nil dereference"))
+							return
+						}
+					}
+				}
 				checkRecv(i, cc.Value, valueText(cc.Value)+"."+cc.Method.Name()+"()")
 				return
 			}
@@ -981,4 +1060,142 @@ func sortedFuncs(w *World, m map[*ssa.Function]bool) []*ssa.Function {
 	}
 	sort.Slice(out, func(i, j int) bool { return w.FuncName(out[i]) < w.FuncName(out[j]) })
 	return out
+}
+
+
+// producerCall: the call whose result the (possibly nested) field load is taken from.
+func producerCall(v ssa.Value) *ssa.Call {
+	for i := 0; i < 8; i++ {
+		switch x := v.(type) {
+		case *ssa.UnOp:
+			v = x.X
+		case *ssa.FieldAddr:
+			v = x.X
+		case *ssa.Field:
+			v = x.X
+		case *ssa.Extract:
+			c, _ := x.Tuple.(*ssa.Call)
+			return c
+		case *ssa.Call:
+			return x
+		default:
+			return nil
+		}
+	}
+	return nil
+}
+
+// flowDescPostcondition: every return of parseFlowDesc with a nil error is reachable only through
+// edges that establish ipf.src.IPNet != nil and ipf.dst.IPNet != nil.
+func (w *World) flowDescPostcondition() (bool, string) {
+	f := w.FnOpt("pfcpiface.parseFlowDesc")
+	if f == nil {
+		return false, ""
+	}
+	for _, ret := range returnsOf(f) {
+		if !isNilConst(res(ret, 1)) {
+			continue
+		}
+		for _, side := range []string{"src", "dst"} {
+			side := side
+			g := onlyVia(f, ret, func(a, b *ssa.BasicBlock) bool {
+				return nilnessEdge(a, b, func(x ssa.Value) bool {
+					s := symOf(x).String()
+					return strings.HasSuffix(s, "."+side+".IPNet")
+				}, false)
+			})
+			if !g {
+				return false, ""
+			}
+		}
+	}
+	return true, "parseFlowDesc succeeds only with both networks set (src.IPNet != nil and dst.IPNet != nil on every success return)"
+}
+
+
+// mapKeyAlwaysPresent: m is a load of a struct field holding a map. The field is assigned in exactly
+// one function (the initialiser), nothing else adds to or deletes from the map, and every return of
+// the initialiser is reachable only through "key k was found" or through a store of a non-nil value
+// under key k.
+func (w *World) mapKeyAlwaysPresent(m ssa.Value, k int64) (bool, string) {
+	u, ok := m.(*ssa.UnOp)
+	if !ok {
+		return false, ""
+	}
+	fa, ok := u.X.(*ssa.FieldAddr)
+	if !ok || fieldVar(fa) == nil {
+		return false, ""
+	}
+	fld := fieldVar(fa)
+	isFld := func(v ssa.Value) bool {
+		uu, ok := v.(*ssa.UnOp)
+		if !ok {
+			return false
+		}
+		f2, ok := uu.X.(*ssa.FieldAddr)
+		return ok && fieldVar(f2) == fld
+	}
+	var init *ssa.Function
+	okAll := true
+	for _, f := range w.Funcs {
+		if strings.HasPrefix(w.FuncName(f), "test/") {
+			continue
+		}
+		f := f
+		allInstrs(f, func(i ssa.Instruction) {
+			switch x := i.(type) {
+			case *ssa.Store:
+				if f2, ok := x.Addr.(*ssa.FieldAddr); ok && fieldVar(f2) == fld {
+					if init != nil && init != f {
+						okAll = false
+					}
+					init = f
+				}
+			case *ssa.MapUpdate:
+				if isFld(x.Map) && init != nil && f != init {
+					okAll = false
+				}
+				if isFld(x.Map) && init == nil {
+					init = f
+				}
+			case *ssa.Call:
+				if b, isB := x.Call.Value.(*ssa.Builtin); isB && (b.Name() == "delete" || b.Name() == "clear") && len(x.Call.Args) > 0 && isFld(x.Call.Args[0]) {
+					okAll = false
+				}
+			}
+		})
+	}
+	if init == nil || !okAll {
+		return false, ""
+	}
+	for _, ret := range returnsOf(init) {
+		// paths to the return that neither find k nor store k
+		hit := reach(init, nil, func(i ssa.Instruction) bool { return i == ssa.Instruction(ret) }, func(i ssa.Instruction) bool {
+			mu, ok := i.(*ssa.MapUpdate)
+			if !ok || !isFld(mu.Map) {
+				return false
+			}
+			kk, isK := constInt(mu.Key)
+			return isK && kk == k && !isNilConst(mu.Value)
+		}, func(a, b *ssa.BasicBlock) bool {
+			v, truth, ok := boolEdge(a, b)
+			if !ok || !truth {
+				return false
+			}
+			ex, isEx := v.(*ssa.Extract)
+			if !isEx || ex.Index != 1 {
+				return false
+			}
+			lk, isLk := ex.Tuple.(*ssa.Lookup)
+			if !isLk || !isFld(lk.X) {
+				return false
+			}
+			kk, isK := constInt(lk.Index)
+			return isK && kk == k
+		})
+		if hit != nil {
+			return false, ""
+		}
+	}
+	return true, fmt.Sprintf("%s guarantees key %d: every return is behind 'key found' or a store under that key, and nothing else writes or deletes the map", w.FuncName(init), k)
 }
